@@ -1,6 +1,7 @@
 """C11 — emitted l-value paths address exactly the value the expression reads."""
 import copy
 import json
+import re
 from vcheck import *
 import behave
 
@@ -139,6 +140,43 @@ def _walk(nodes, acc):
     return acc
 
 
+def script_paths(res, tree, j, label, counter):
+    """general l-value paths rooted at a script module ([1, <script path>, members...] for a file, [2, <template path>,
+    <module name>, members...] for an inline module) must name the module and member whose value the attribute delivers.
+    The designed templates export self-describing functions named <module>_<member>_..., so the path is checked against the
+    value without looking at the implementation's scope table."""
+    bad = 0
+    src = j["src"]
+    inline = re.findall(r'<wxs module="([^"]+)">', src)
+    ext = dict((m, p.lstrip("/")) for m, p in re.findall(r'<wxs module="([^"]+)" src="([^"]+)"', src))
+    for n in _walk(tree, []):
+        if n.get("k") != "elem":
+            continue
+        for key, rec in n.get("attrs", []) or []:
+            pth = rec.get("lv")
+            if not (isinstance(pth, dict) and "$a" in pth):
+                continue
+            path = dec_val(pth)
+            v = rec.get("v")
+            if not path or path[0] not in (1, 2) or not (isinstance(v, dict) and "$fn" in v):
+                continue
+            # (only the designed, self-describing functions: <module>_<members>)
+            if not any(v["$fn"].startswith(m + "_") for m in inline + list(ext)):
+                continue
+            counter[0] += 1
+            if path[0] == 2:
+                ok = len(path) >= 3 and path[1] == j["path"] and path[2] in inline and "_".join([path[2]] + [str(x) for x in path[3:]]) == v["$fn"]
+            else:
+                mods = [m for m, p in ext.items() if len(path) >= 2 and p == path[1]]
+                ok = any("_".join([m] + [str(x) for x in path[2:]]) == v["$fn"] for m in mods)
+            if not ok:
+                bad += 1
+                if bad <= 2:
+                    res.violation("%s: the general path %r held by %s does not name the script module and member whose value it "
+                                  "delivers (function %s)" % (label, path, key, v["$fn"]), {"src": src, "path": path, "attribute": key})
+    return bad
+
+
 def paths_in_effect(res, tree, data, j, label, counter):
     """every model / general l-value path held by an element of `tree` must address, in `data`, the value the same
     attribute currently holds (top-level elements only: inside wx:for / template-is the data object differs)"""
@@ -238,6 +276,7 @@ def effect_stage(res):
         for k, t in enumerate(run0["trees"]):
             if bad < 6:
                 bad += paths_in_effect(res, t, j["datas"][k], j, "after update step %d" % k, counter)
+                bad += script_paths(res, t, j, "after update step %d" % k, counter)
         if "matrix-attrs-only" not in j.get("features", []):
             continue
         d0 = j["datas"][0]
